@@ -11,6 +11,11 @@ def _legs(tier):
          "gen": [("Proxy_MC", "Proxy_GenMid.cfg")], "trace": ("Proxy_Trace", "Proxy_Trace.cfg"), "shards": 4},
         {"name": "xa-mid", "driver": "proxy", "env": {"FLAVOUR": "xa", "MAXSTEPS": "3"},
          "gen": [("Proxy_MC", "Proxy_GenMid.cfg")], "trace": ("Proxy_Trace", "Proxy_Trace.cfg"), "shards": 2},
+        # the server drops the idle pooled connections between statements
+        {"name": "at-drop", "driver": "proxy", "env": {"FLAVOUR": "at", "MAXSTEPS": "3"},
+         "gen": [("Proxy_MC", "Proxy_GenDrop.cfg")], "trace": ("Proxy_Trace", "Proxy_Trace.cfg"), "shards": 2},
+        {"name": "xa-drop", "driver": "proxy", "env": {"FLAVOUR": "xa", "MAXSTEPS": "3"},
+         "gen": [("Proxy_MC", "Proxy_GenDrop.cfg")], "trace": ("Proxy_Trace", "Proxy_Trace.cfg"), "shards": 2},
         {"name": "xa", "driver": "proxy", "env": {"FLAVOUR": "xa", "MAXSTEPS": "2"},
          "gen": [("Proxy_MC", "Proxy_Gen.cfg")], "trace": ("Proxy_Trace", "Proxy_Trace.cfg"), "shards": 2},
     ]
